@@ -4,20 +4,22 @@ From Cicada Require Import Base.Chars Base.Peg Gen.LocustGrammar Model.Script Mo
   Proofs.ScriptProofs Proofs.PegProofs Proofs.LocustParse.
 From Coq Require Import ZArith String Ascii.
 
-(** 1. The interpreter of scripting.rs (run_exp and its helpers, transcribed),
-    run on the ideal pair tree of a well-formed script, is the structured
-    semantics -- for every world, every behaviour of commands / conditions /
-    word lists, every nesting depth, inside or outside a loop, with [n] the
-    bound on the iterations of one while loop on both sides, provided the
-    recursion bound [d] exceeds the nesting measure and set -e is off. *)
+(** 1. The interpreter of scripting.rs (run_exp and its helpers, transcribed, with the
+    exit_requested tests of 05253ef), run on the ideal pair tree of a well-formed script, is the
+    structured semantics -- for every world, every behaviour of commands / conditions / word
+    lists, every nesting depth, inside or outside a loop, with [n] the bound on the iterations
+    of one while loop on both sides, provided the recursion bound [d] exceeds the nesting
+    measure; [e] says whether set -e is in effect throughout (exit_on_error reads [e] in every
+    world): with e = false nothing stops the script, with e = true the reference semantics
+    ends everything at the first statement whose last pipeline failed, at any depth. *)
 Theorem C14_interp :
   forall (W : Type) (run_line : W -> str -> W * list Z) (for_words : W -> str -> W * list str)
-         (set_var : W -> str -> str -> W) (eoe : W -> bool) (n : nat),
-  (forall w, eoe w = false) ->
+         (set_var : W -> str -> str -> W) (eoe : W -> bool) (e : bool) (n : nat),
+  (forall w, eoe w = e) ->
   forall b, wf_block b = true ->
   forall d in_loop w r txt, (depth_block b < d)%nat ->
   run_exp W run_line for_words set_var eoe n d (TNode r txt (kids_of_block b)) in_loop w =
-  sem_block W run_line for_words set_var n b in_loop w.
+  sem_block W run_line for_words set_var e n b in_loop w.
 Proof. exact run_exp_sem. Qed.
 
 (** 2. Parser correctness, full statement (NOT proved in general: carried by the
@@ -79,6 +81,24 @@ Theorem C14_parse_partial_from : forall b, frag_flat b = true ->
   parse_from l_grammar L_EXP (render_block b) = PFuel \/ parse_ok b.
 Proof. exact parse_flat_from. Qed.
 
+(** One block, positions only (the span texts of the compound nodes are not yet connected to
+    tree_of_script): the script  `while cond` / one or more command lines / `done`  -- cond any
+    one-line text without `;` and without white space at either end -- is parsed completely, for all
+    sufficiently large fuel, to  EXP [ EXP_WHILE [ WHILE_HEAD [TEST]; EXP_BODY [CMD ...] ]; EOI ]
+    with exactly these spans. Unbounded in cond and in the body. *)
+Theorem C14_parse_while_pos : forall cond l r, cond_ok cond = true -> forallb cmd_ok (l :: r) = true ->
+  let src := while_script cond (l :: r) in
+  let p1 := S (6 + List.length cond) in
+  let p2 := (p1 + List.length (render_lines (l :: r)))%nat in
+  evals l_grammar (PRef L_EXP) AtNon 0 src
+     (POk (List.length src) nil
+        (Node L_EXP 0 (List.length src)
+           (Node L_EXP_WHILE 0 (p2 + 5)
+              (Node L_WHILE_HEAD 0 p1 (Node L_TEST 6 (6 + List.length cond) nil :: nil) ::
+               Node L_EXP_BODY p1 p2 (cmd_nodes p1 (l :: r)) :: nil) ::
+            Node L_EOI (List.length src) (List.length src) nil :: nil) :: nil)).
+Proof. exact while_script_parses_pos. Qed.
+
 Example C14_parse_partial_nonvacuous :
   frag_flat (BCons (SCmd nil (S2 "echo a  b")) (BCons (SBreak nil) (BCons (SCmd nil (S2 "ls | wc; date")) BNil))) = true.
 Proof. vm_compute. reflexivity. Qed.
@@ -131,12 +151,12 @@ Proof. vm_compute. repeat split. Qed.
 
 Check C14_interp :
   forall (W : Type) (run_line : W -> str -> W * list Z) (for_words : W -> str -> W * list str)
-         (set_var : W -> str -> str -> W) (eoe : W -> bool) (n : nat),
-  (forall w, eoe w = false) ->
+         (set_var : W -> str -> str -> W) (eoe : W -> bool) (e : bool) (n : nat),
+  (forall w, eoe w = e) ->
   forall b, wf_block b = true ->
   forall d in_loop w r txt, (depth_block b < d)%nat ->
   run_exp W run_line for_words set_var eoe n d (TNode r txt (kids_of_block b)) in_loop w =
-  sem_block W run_line for_words set_var n b in_loop w.
+  sem_block W run_line for_words set_var e n b in_loop w.
 Check C14_anchor_sound : forall (g : grammar) (start : N), top_anchored g start = true ->
   forall input p r k, parse_from g start input = POk p r k -> r = nil.
 
@@ -156,7 +176,7 @@ Example C14_nonvacuous :
    | Some (Done w crs _ _) => Some (List.length w, crs)
    | _ => None
    end) = Some (13%nat, (0 :: 0 :: 0 :: nil)%Z) /\
-  sem_block (list str) fail_conditions words3 (fun w _ _ => w) 8 wit2 false nil =
+  sem_block (list str) fail_conditions words3 (fun w _ _ => w) false 8 wit2 false nil =
   (match run_lines (list str) fail_conditions words3 (fun w _ _ => w) (fun _ => false) 8 (render_block wit2) nil with
    | Some o => o
    | None => Panic
@@ -166,6 +186,7 @@ Proof. vm_compute. repeat split. Qed.
 Print Assumptions C14_interp.
 Print Assumptions C14_parse_partial.
 Print Assumptions C14_parse_partial_from.
+Print Assumptions C14_parse_while_pos.
 Print Assumptions C14_parse_instances.
 Print Assumptions C14_anchor_sound.
 Print Assumptions C14_anchored.
